@@ -43,6 +43,10 @@ CLAIMS = {
    technique="runtime monitoring: GenerateLoginToken/ValidateToken/GetUserFromToken observed on seeded issue tuples under cross-validation, ~45 byte-level and caveat-level alterations built with macaroon.v2 (holder-side appended caveats, re-minted tokens with chosen expiry / missing / duplicated / unknown caveats, other key), plus a real-time expiry monitor with one-sided regions",
    text="Every issued token must validate for its own secret and user and reveal that user; every cross-validation and alteration must be refused. Expiry is decided two ways: tokens re-minted with a chosen absolute expiry (10 s ago, 1970, now, +1 h) when the genuine expiry caveat is in Unix seconds, and black-box polling of live tokens (1-3 s in quick; the 120 s default, 61 s and a 2 s token every 5 s for 130 s in thorough, so issue instants cover every second of the minute). If the expiry caveat is not absolute Unix seconds the quick tier extends its polling to 66 s.",
    note=TB + "gopkg.in/macaroon.v2; wall clock used only in one-sided comparisons; abstains on byte edits that leave identifier, caveats and signature unchanged."),
+ "C07": dict(level="exploration", design="§4 C07, §5.1, appendix B",
+   technique="runtime monitoring: reference-model oracle (rule-by-rule transcription of the Matrix authorization rules with the library's documented departures) compared with Allowed on composed (version, create variant, auth state, event) cases built from pools of real events; per-rule coverage histogram with floors",
+   text="For each of the 15 non-pseudo-ID room versions and 4 create-event variants, pools of real power-levels / join-rules / member / third-party-invite events are built; tens of thousands of cases per run combine a random auth state with one of 16 event kinds by 5 users on 3 servers and compare the library's verdict with the reference model's, which also names the deciding rule (85 rule outcomes, all counted in the evidence; key ones have floors). Sampled, with explicit abstention regions (DESIGN.md 5.3).",
+   note=TB + "events are built by the real EventBuilder; pseudo-ID room version not driven; abstention regions of DESIGN.md 5.3."),
 }
 NOT_YET = "check not built yet (work in progress; see DESIGN.md §4 for the planned monitor)"
 
